@@ -115,6 +115,13 @@ class Model:
     def on_reopen(self):
         """What a written image cannot carry: a boot file without any name is known from its El Torito
         entry only, i.e. as `sector count` virtual sectors of 512 bytes."""
+        # a relocation directory name of the user's choice is a setting of the object, not of the image: a new object
+        # knows the relocation directory only by the relocated directories it finds in it
+        if self.reloc is not None and self.reloc != ('RR_MOVED', 'rr_moved'):
+            if not self.relocated_dirs():
+                self.reloc = None
+            else:
+                self.reloc_forget = True
         seen = set()
         for e in (self.boot or {}).get('entries', []):
             b = self.blobs.get(e['blob'])
@@ -452,6 +459,9 @@ class Model:
                 del self.gids[gid][ns]
                 if e.get('reloc') and not self.relocated_dirs():
                     self.rr_moved_removed = True
+                    if getattr(self, 'reloc_forget', False):
+                        self.reloc = None
+                        self.reloc_forget = False
             if not self.gids[gid]:
                 del self.gids[gid]
             self.classes.add('removal')
